@@ -81,7 +81,7 @@ func c15Scenario(p c15Params) *explore.Scenario {
 		verb = l.Cmd
 	}
 	sc.Main = func(env *vx.Env) {
-		c := NewClient("me", nil)
+		c := NewClient("me", func(cfg *client.Config) { cfg.Version = "verif-test 1.0" })
 		if p.Tracking {
 			c.EnableStateTracking()
 		}
@@ -150,11 +150,11 @@ func c15Scenario(p c15Params) *explore.Scenario {
 		wire := strings.Join(o.Conns[0].Lines(), "\n")
 		switch p.Shape {
 		case "ping":
-			if !strings.Contains(wire, "PONG :token-one") || !strings.Contains(wire, "PONG :token-two") {
+			if !HasLine(o.Conns[0].Lines(), "PONG :token-one") || !HasLine(o.Conns[0].Lines(), "PONG :token-two") {
 				fs = append(fs, explore.Finding{Oracle: "builtin-saw-edited-line", Msg: "PING was not answered with its own token: " + Q(wire)})
 			}
 		case "ctcp":
-			if !strings.Contains(wire, "NOTICE o :\x01VERSION Powered by GoIRC\x01") || !strings.Contains(wire, "NOTICE o :\x01PING 12345\x01") {
+			if !strings.Contains(wire, "NOTICE o :\x01VERSION verif-test 1.0\x01") || !strings.Contains(wire, "NOTICE o :\x01PING 12345\x01") {
 				fs = append(fs, explore.Finding{Oracle: "builtin-saw-edited-line", Msg: "CTCP VERSION/PING not answered as for the original line: " + Q(wire)})
 			}
 		}
